@@ -9,7 +9,7 @@ import Poulpy.Lemmas.Fft64Vmp
 import Poulpy.Lemmas.F64Mono
 import Poulpy.Lemmas.Fft64AvxAgree
 import Poulpy.Lemmas.Fft64AvxVmpNumeric
-import Poulpy.Lemmas.Fft64CnvAvx
+import Poulpy.Lemmas.Fft64CnvPairNumeric
 import Poulpy.Lemmas.Fft64CnvConst
 
 /-!
@@ -1637,12 +1637,96 @@ theorem fft64avx_cnv_by_const_counterexample :
     cnvByConst true 2 1 0 [[3000000000, 1, -3000000000, 5, 6, 7, 8, 9]] [3] ≠
     cnvByConst false 2 1 0 [[3000000000, 1, -3000000000, 5, 6, 7, 8, 9]] [3] := cnvByConst_avx_counterexample
 
-/- FULL STATEMENT (not proved): `cnv_pairwise_apply_dft(i ≠ j)` (`cnvPairwise`: modelled and tied bit for bit on both back ends).
-   The exact side is `cnvApplyCol (colAdd A_i A_j) (colAdd B_i B_j)`; the computed operands are `(2·EF + 3u·(AF + EF), 2·AF)`-close
-   (one `f64` addition per component, magnitudes doubled), so the accumulation lemmas (`fold_close`, `fold_closeL`: generic in
-   `(Ea, Aa, Eb, Ab)`) apply, but the domain predicates `VmpDomain` / `LaneDomainAvx` are phrased for `(EF, AF)` operands; the
-   generalised predicate and its numeric table (≈ 2 bits below `domBitsV`) are missing.
-   `convolution_apply_dft` with `n < 8` (`m/4 = 0` blocks: nothing is written) is outside the model (`.err`). -/
+/-! ### pairwise convolution `(a_i + a_j)·(b_i + b_j)` -/
+
+/-- `reim_add` of two `(EF τ M, AF M)`-close transforms is `(EF τ' 2M, AF 2M)`-close: the sums double the magnitude, and the one
+extra rounding per component is absorbed by stating the result at `τ'` with `(1 + γf τ/2)(1 + 3u/2) ≤ 1 + γf τ'/2` -/
+theorem fft64_reim_add_close (K : Nat) (hK : 1 ≤ K) (τ τ' M : ℝ) (hτ0 : 0 ≤ τ) (hM : 1 ≤ M)
+    (hf : (1 + γf τ / 2) * (1 + 3 / 2 * u) ≤ 1 + γf τ' / 2)
+    (hbig : 2 * (AF K M + EF K τ M) ≤ (2:ℝ) ^ (1000:Int))
+    {x y : List C64} {X Y : List ℂ} (hx : Close (EF K τ M) (AF K M) x X) (hy : Close (EF K τ M) (AF K M) y Y) :
+    Close (EF K τ' (2 * M)) (AF K (2 * M)) (List.zipWith (fun p q : C64 => (add p.1 q.1, add p.2 q.2)) x y) (List.zipWith (· + ·) X Y) :=
+  close_add K hK τ τ' M hτ0 hM hf hbig hx hy
+
+/-- **`fft64_cnv_pairwise_matches_spec`** (FFT64Ref): `cnv_pairwise_apply_dft(i ≠ j)` + `idft` = `cnvApplyCol` of the column sums -/
+theorem fft64_cnv_pairwise_matches_spec (K : Nat) (hK2 : 2 ≤ K) (omg iomg : Array Nat) (τ τ' Ma Mb : ℝ) (rs off sl sr : Nat) (ml mr : Int)
+    (a0 a1 b0 b1 : Col) (hacc : TableAccurate τ K omg iomg) (hτ0 : 0 ≤ τ) (hττ : τ ≤ τ')
+    (hf : (1 + γf τ / 2) * (1 + 3 / 2 * u) ≤ 1 + γf τ' / 2) (hsl : 1 ≤ sl) (hsr : 1 ≤ sr) (hMa : 1 ≤ Ma) (hMb : 1 ≤ Mb)
+    (hA0 : PrepOK K Ma (cnvPrepareCol (2 * 2 ^ K) sl ml a0)) (hA1 : PrepOK K Ma (cnvPrepareCol (2 * 2 ^ K) sl ml a1))
+    (hB0 : PrepOK K Mb (cnvPrepareCol (2 * 2 ^ K) sr mr b0)) (hB1 : PrepOK K Mb (cnvPrepareCol (2 * 2 ^ K) sr mr b1))
+    (hdom : ∀ R, 1 ≤ R → R ≤ min sl sr → VmpDomain K R τ' (2 * Ma) (2 * Mb)) :
+    cnvPairwise refOps K omg iomg rs off sl sr ml mr a0 a1 b0 b1 =
+      .ok (cnvApplyCol (2 * 2 ^ K) rs off
+        (colAdd (2 * 2 ^ K) (cnvPrepareCol (2 * 2 ^ K) sl ml a0) (cnvPrepareCol (2 * 2 ^ K) sl ml a1))
+        (colAdd (2 * 2 ^ K) (cnvPrepareCol (2 * 2 ^ K) sr mr b0) (cnvPrepareCol (2 * 2 ^ K) sr mr b1))) :=
+  cnv_pairwise_exact K hK2 omg iomg τ τ' Ma Mb rs off sl sr ml mr a0 a1 b0 b1 hacc hτ0 hττ hf hsl hsr hMa hMb hA0 hA1 hB0 hB1 hdom
+
+/-- **`fft64avx_cnv_pairwise_matches_spec`** (FFT64Avx) -/
+theorem fft64avx_cnv_pairwise_matches_spec (K : Nat) (hK2 : 2 ≤ K) (omg iomg : Array Nat) (τ τ' Ma Mb : ℝ) (rs off sl sr : Nat) (ml mr : Int)
+    (a0 a1 b0 b1 : Col) (hacc : TableAccurate τ K omg iomg) (hτ0 : 0 ≤ τ) (hττ : τ ≤ τ')
+    (hf : (1 + γf τ / 2) * (1 + 3 / 2 * u) ≤ 1 + γf τ' / 2) (hsl : 1 ≤ sl) (hsr : 1 ≤ sr) (hMa : 1 ≤ Ma) (hMb : 1 ≤ Mb)
+    (hrawA0 : ∀ j, j < min sl a0.length → ∀ c ∈ limbOr0 (2 * 2 ^ K) a0 j, c.natAbs ≤ 2 ^ 50 - 1)
+    (hrawA1 : ∀ j, j < min sl a1.length → ∀ c ∈ limbOr0 (2 * 2 ^ K) a1 j, c.natAbs ≤ 2 ^ 50 - 1)
+    (hrawB0 : ∀ j, j < min sr b0.length → ∀ c ∈ limbOr0 (2 * 2 ^ K) b0 j, c.natAbs ≤ 2 ^ 50 - 1)
+    (hrawB1 : ∀ j, j < min sr b1.length → ∀ c ∈ limbOr0 (2 * 2 ^ K) b1 j, c.natAbs ≤ 2 ^ 50 - 1)
+    (hA0 : PrepOKA K Ma (cnvPrepareCol (2 * 2 ^ K) sl ml a0)) (hA1 : PrepOKA K Ma (cnvPrepareCol (2 * 2 ^ K) sl ml a1))
+    (hB0 : PrepOKA K Mb (cnvPrepareCol (2 * 2 ^ K) sr mr b0)) (hB1 : PrepOKA K Mb (cnvPrepareCol (2 * 2 ^ K) sr mr b1))
+    (hdom : ∀ R, 1 ≤ R → R ≤ min sl sr → LaneDomainAvx K R τ' (2 * Ma) (2 * Mb)) :
+    cnvPairwise avxOps K omg iomg rs off sl sr ml mr a0 a1 b0 b1 =
+      .ok (cnvApplyCol (2 * 2 ^ K) rs off
+        (colAdd (2 * 2 ^ K) (cnvPrepareCol (2 * 2 ^ K) sl ml a0) (cnvPrepareCol (2 * 2 ^ K) sl ml a1))
+        (colAdd (2 * 2 ^ K) (cnvPrepareCol (2 * 2 ^ K) sr mr b0) (cnvPrepareCol (2 * 2 ^ K) sr mr b1))) :=
+  cnvAvx_pairwise_exact K hK2 omg iomg τ τ' Ma Mb rs off sl sr ml mr a0 a1 b0 b1 hacc hτ0 hττ hf hsl hsr hMa hMb
+    hrawA0 hrawA1 hrawB0 hrawB1 hA0 hA1 hB0 hB1 hdom
+
+/-- the pairwise domains in numbers (`τ' = 2^-50 = τ51 + 4u`): `R·Ma·Mb ≤ 2^(domBitsP K)` on FFT64Ref,
+`domBitsP = 37, 35, 33, 31, 28, 26, 24, 22, 20, 18, 16, 14, 11, 9`, and `2^(domBitsPA K)` on FFT64Avx,
+`domBitsPA = 36, 34, 32, 29, 27, 25, 23, 21, 19, 17, 15, 12, 10, 8`, for `K = 2 … 15` (two bits below the plain convolution for
+the doubled operands, at most one more for the extra rounding) -/
+theorem fft64_cnv_pairwise_domain_numeric (K : Nat) (hK2 : 2 ≤ K) (hK : K ≤ 15) (R : Nat) (hR1 : 1 ≤ R) (hR : R ≤ 64) (Ma Mb : ℝ)
+    (hMa : 1 ≤ Ma) (hMb : 1 ≤ Mb) :
+    (R * (Ma * Mb) ≤ (2:ℝ) ^ (domBitsP K) → VmpDomain K R τ50 (2 * Ma) (2 * Mb)) ∧
+    (R * (Ma * Mb) ≤ (2:ℝ) ^ (domBitsPA K) → LaneDomainAvx K R τ50 (2 * Ma) (2 * Mb)) :=
+  ⟨vmpDomain_pair_numeric K hK2 hK R hR1 hR Ma Mb hMa hMb, laneDomainAvx_pair_numeric K hK2 hK R hR1 hR Ma Mb hMa hMb⟩
+
+/-- pairwise convolution with numbers only (tables accurate to `2^-51`): exact on both back ends, hence equal -/
+theorem fft64_cnv_pairwise_ref_avx_agree (K : Nat) (hK2 : 2 ≤ K) (hK : K ≤ 15) (omg iomg : Array Nat) (Ma Mb : ℝ) (rs off sl sr : Nat)
+    (ml mr : Int) (a0 a1 b0 b1 : Col) (hacc : TableAccurate τ51 K omg iomg) (hsl : 1 ≤ sl) (hsr : 1 ≤ sr) (h64 : min sl sr ≤ 64)
+    (hMa : 1 ≤ Ma) (hMb : 1 ≤ Mb)
+    (hrawA0 : ∀ j, j < min sl a0.length → ∀ c ∈ limbOr0 (2 * 2 ^ K) a0 j, c.natAbs ≤ 2 ^ 50 - 1)
+    (hrawA1 : ∀ j, j < min sl a1.length → ∀ c ∈ limbOr0 (2 * 2 ^ K) a1 j, c.natAbs ≤ 2 ^ 50 - 1)
+    (hrawB0 : ∀ j, j < min sr b0.length → ∀ c ∈ limbOr0 (2 * 2 ^ K) b0 j, c.natAbs ≤ 2 ^ 50 - 1)
+    (hrawB1 : ∀ j, j < min sr b1.length → ∀ c ∈ limbOr0 (2 * 2 ^ K) b1 j, c.natAbs ≤ 2 ^ 50 - 1)
+    (hA0 : PrepOKA K Ma (cnvPrepareCol (2 * 2 ^ K) sl ml a0)) (hA1 : PrepOKA K Ma (cnvPrepareCol (2 * 2 ^ K) sl ml a1))
+    (hB0 : PrepOKA K Mb (cnvPrepareCol (2 * 2 ^ K) sr mr b0)) (hB1 : PrepOKA K Mb (cnvPrepareCol (2 * 2 ^ K) sr mr b1))
+    (h : (min sl sr : Nat) * (Ma * Mb) ≤ (2:ℝ) ^ (domBitsPA K)) :
+    cnvPairwise avxOps K omg iomg rs off sl sr ml mr a0 a1 b0 b1 =
+      .ok (cnvApplyCol (2 * 2 ^ K) rs off
+        (colAdd (2 * 2 ^ K) (cnvPrepareCol (2 * 2 ^ K) sl ml a0) (cnvPrepareCol (2 * 2 ^ K) sl ml a1))
+        (colAdd (2 * 2 ^ K) (cnvPrepareCol (2 * 2 ^ K) sr mr b0) (cnvPrepareCol (2 * 2 ^ K) sr mr b1))) ∧
+    cnvPairwise avxOps K omg iomg rs off sl sr ml mr a0 a1 b0 b1 = cnvPairwise refOps K omg iomg rs off sl sr ml mr a0 a1 b0 b1 := by
+  have hτ0 : 0 ≤ τ51 := by unfold τ51; positivity
+  have hRle : ∀ R : Nat, R ≤ min sl sr → (R:ℝ) * (Ma * Mb) ≤ (2:ℝ) ^ (domBitsPA K) := by
+    intro R hR
+    refine le_trans ?_ h
+    have : (R:ℝ) ≤ ((min sl sr : Nat):ℝ) := by exact_mod_cast hR
+    exact mul_le_mul_of_nonneg_right this (by positivity)
+  have hle : (2:ℝ) ^ (domBitsPA K) ≤ (2:ℝ) ^ (domBitsP K) := by
+    apply pow_le_pow_right₀ (by norm_num)
+    interval_cases K <;> simp [domBitsPA, domBitsP]
+  have dA : ∀ R, 1 ≤ R → R ≤ min sl sr → LaneDomainAvx K R τ50 (2 * Ma) (2 * Mb) :=
+    fun R hR1 hR => laneDomainAvx_pair_numeric K hK2 hK R hR1 (le_trans hR h64) Ma Mb hMa hMb (hRle R hR)
+  have dR : ∀ R, 1 ≤ R → R ≤ min sl sr → VmpDomain K R τ50 (2 * Ma) (2 * Mb) :=
+    fun R hR1 hR => vmpDomain_pair_numeric K hK2 hK R hR1 (le_trans hR h64) Ma Mb hMa hMb (le_trans (hRle R hR) hle)
+  have eA := fft64avx_cnv_pairwise_matches_spec K hK2 omg iomg τ51 τ50 Ma Mb rs off sl sr ml mr a0 a1 b0 b1 hacc hτ0 τ51_le_τ50
+    pair_growth_ok hsl hsr hMa hMb hrawA0 hrawA1 hrawB0 hrawB1 hA0 hA1 hB0 hB1 dA
+  have eR := fft64_cnv_pairwise_matches_spec K hK2 omg iomg τ51 τ50 Ma Mb rs off sl sr ml mr a0 a1 b0 b1 hacc hτ0 τ51_le_τ50
+    pair_growth_ok hsl hsr hMa hMb (prepOK_of_A K Ma _ hA0) (prepOK_of_A K Ma _ hA1) (prepOK_of_A K Mb _ hB0) (prepOK_of_A K Mb _ hB1) dR
+  exact ⟨eA, by rw [eA, eR]⟩
+
+/- FULL STATEMENT (not proved): `convolution_apply_dft` with `n < 8` (`m/4 = 0` blocks: nothing is written to the result) is
+   outside the model (`.err "n<8"`); `TableAccurate τ51` itself is a hypothesis for `n > 4` (checked by the gate against exact
+   enclosures of the roots of unity for every `n ≤ 2^16`, proved in Lean for the `m = 2` tables only). -/
 
 /-! non-vacuity: both back ends on the crate's real `m = 4` tables, evaluated by the kernel; the numeric domain is inhabited -/
 def omg4 : Array Nat := #[4604544271217802189, 4604544271217802188, 4606496786581982534, 4600565431771507043, 0, 0, 0, 0]
@@ -1686,5 +1770,18 @@ example : caddmulLaneAvx (0x3FF0000000000000, 0x3FF0000000000000) (0x3FF00000000
   decide +kernel
 example : lo32 3000000000 = -1294967296 ∧ byConstTerm true 3000000000 3 = -3884901888 ∧ byConstTerm false 3000000000 3 = 9000000000 := by
   decide +kernel
+
+example : okOr (cnvPairwise refOps 2 omg4 iomg4 2 0 1 1 (-1) (-1) [[4095, -4095, 1, 0, 7, -9, 1000, 4095]] [[1, 2, 3, 4, 5, 6, 7, -4095]]
+      [[-5, 4095, 0, 0, 0, 0, 0, 1]] [[4095, 4095, 4095, 4095, 4095, 4095, 4095, 4095]]) [] =
+    cnvApplyCol 8 2 0 (colAdd 8 (cnvPrepareCol 8 1 (-1) [[4095, -4095, 1, 0, 7, -9, 1000, 4095]]) (cnvPrepareCol 8 1 (-1) [[1, 2, 3, 4, 5, 6, 7, -4095]]))
+      (colAdd 8 (cnvPrepareCol 8 1 (-1) [[-5, 4095, 0, 0, 0, 0, 0, 1]]) (cnvPrepareCol 8 1 (-1) [[4095, 4095, 4095, 4095, 4095, 4095, 4095, 4095]])) := by
+  decide +kernel
+example : okOr (cnvPairwise avxOps 2 omg4 iomg4 2 0 1 1 (-1) (-1) [[4095, -4095, 1, 0, 7, -9, 1000, 4095]] [[1, 2, 3, 4, 5, 6, 7, -4095]]
+      [[-5, 4095, 0, 0, 0, 0, 0, 1]] [[4095, 4095, 4095, 4095, 4095, 4095, 4095, 4095]]) [] =
+    okOr (cnvPairwise refOps 2 omg4 iomg4 2 0 1 1 (-1) (-1) [[4095, -4095, 1, 0, 7, -9, 1000, 4095]] [[1, 2, 3, 4, 5, 6, 7, -4095]]
+      [[-5, 4095, 0, 0, 0, 0, 0, 1]] [[4095, 4095, 4095, 4095, 4095, 4095, 4095, 4095]]) [] := by decide +kernel
+example : VmpDomain 2 1 τ50 (2 * 4096) (2 * 4096) ∧ LaneDomainAvx 2 1 τ50 (2 * 4096) (2 * 4096) :=
+  ⟨(fft64_cnv_pairwise_domain_numeric 2 le_rfl (by norm_num) 1 le_rfl (by norm_num) 4096 4096 (by norm_num) (by norm_num)).1 (by unfold domBitsP; norm_num),
+   (fft64_cnv_pairwise_domain_numeric 2 le_rfl (by norm_num) 1 le_rfl (by norm_num) 4096 4096 (by norm_num) (by norm_num)).2 (by unfold domBitsPA; norm_num)⟩
 
 end C07
